@@ -195,8 +195,9 @@ BinLen(v) ==
    carry: when that patch is in /repo set BinCountChecked to TRUE. *)
 BinCountChecked == FALSE
 CountU8(n) == n % 256
-\* a slate the binary form can carry at all
-BinRepresentable(v) == Len(v.sigs) <= 255
+\* a slate the binary form can carry at all: the participant list fits its count, and a height-locked
+\* kernel has its height (the format has no way to say "feat = 2 without feat_args")
+BinRepresentable(v) == Len(v.sigs) <= 255 /\ ~(v.feat = 2 /\ v.fargs = NoArg)
 
 (* SlateV4Bin::write.  The trailing lock height exists only for feat = 2
    ("Write lock height for height locked kernels"); a missing feat_args is
@@ -317,8 +318,8 @@ SlateEq(a, b) == Norm(a) = Norm(b)
 InScope(s) == s.feat \in {0, 2, 3}
 
 (* RoundTrip(e, s): decoding the encoding gives the same slate (and, for a slatepack, the same sender).  A slate
-   with more participants than the binary count can carry has no binary form: there the encoder may refuse
-   ("enc-err"); what it may never do is hand out bytes that decode to something else. *)
+   that has no binary form (~BinRepresentable) may be refused by the encoder ("enc-err"); what the encoder may
+   never do is hand out bytes that decode to something else. *)
 RoundTripRes(r, s, env, e) ==
   LET same == r.res = "ok" /\ SlateEq(r.slate, s) /\ (IsPack(e) => r.sender = env.snd) IN
   IF UsesBin(e) /\ ~BinRepresentable(ToV4(s)) THEN same \/ r.res = "enc-err" ELSE same
